@@ -142,8 +142,10 @@ pub fn profile(name: &str) -> Option<Profile> {
             rebuild_checks: true,
             ..base
         },
-        "net" | "netfaults" => Profile {
-            name: if name == "net" { "net" } else { "netfaults" },
+        "net" | "netfaults" | "netpart" => Profile {
+            name: match name {
+                "net" => "net", "netfaults" => "netfaults", _ => "netpart"
+            },
             oracles: Oracles { c01: true, c02: true, c03: true, ..Default::default() },
             gen_cfg: GenCfg {
                 w_entitlement: 25,
@@ -152,8 +154,11 @@ pub fn profile(name: &str) -> Option<Profile> {
                 w_keyroll: 12,
                 w_maintenance: 10,
                 allow_restart: false,
+                w_partition: if name == "netpart" { 8 } else { 0 },
                 ..GenCfg::default()
             },
+            min_ops: if name == "netpart" { 25 } else { 15 },
+            max_ops: if name == "netpart" { 60 } else { 45 },
             net: Some(if name == "net" {
                 crate::net::NetCfg::reliable()
             } else {
